@@ -36,7 +36,7 @@ UNA_CLASSES = ['una-%s-%s' % (s, b) for s in ('add', 'sub') for b in ('leading',
 ILL_CLASSES = ['ill-paren-insert', 'ill-paren-delete', 'ill-arity-more', 'ill-arity-fewer', 'ill-operand-deleted',
                'ill-edit-still-wellformed', 'ill-must-be-rejected']
 REQUIRED_CLASSES = (LEVEL_CLASSES + CHAIN_CLASSES + CMP_CLASSES + FN_CLASSES + UNA_CLASSES + ILL_CLASSES +
-                    ['unary-before-pow', 'nesting>=3', 'blank-variant', 'logical-result', 'numeric-result'])
+                    ['unary-before-pow', 'nesting>=3', 'blank-variant', 'logical-result', 'numeric-result', 'docs-example'])
 REQUIRED_MONITORS = ['reference_compares', 'blank_pairs_compared', 'illformed_rejections_checked',
                      'recogniser_decisions', 'step_guarded_calls']
 ASSUMPTIONS = ['reference evaluator vt.refmodel.solver_ref (left folds, documented step order, numpy functions) is the trusted base',
@@ -119,8 +119,17 @@ def gen_edit(rng, ast):
     return dict(k=k, path=list(path), j=j)
 
 
+DOC_EXAMPLES = ['1 * ((2+3) / +3 - -10 ) + (-23 *++2) + 23**2',                     # docs/source/solver/index.rst
+                'sin(23) < 1 && 3*2 == 6 || !(23 > 43) && cos(0) == 1',
+                '((2+3) /(3) )', '3*1+6/4*sin(34)', 'sin(cos(23))', 'pow((23+3), (2*4))', 'logb(23+3, 10)',   # tests/solver
+                '1 && 0 || 1 && !0 && 1 || 0', '1-1 && (1*32)/2 || sin(3)', '81 <= 45', '1 != 0', '!0']
+
+
 def cases(rng, tier, shard, nshards, ctx):
     N = NCASES[tier]
+    if shard == 0:
+        for text in DOC_EXAMPLES:      # the reference model is cross-checked against the documented examples on every run
+            yield dict(t='doc', text=text)
     nwf, nill = N['wf'] // nshards, N['ill'] // nshards
     i = shard * 7
     for n in range(nwf + nill):
@@ -186,7 +195,9 @@ def judge_wellformed(ast, text, ob, ref, ctx):
                 return ('known', KEY_D3)
             if d2 and d3 and R.scan_raises(text, True, True):
                 return ('known', KEY_D2)
-        if ob[1] in ('ZeroDivisionError', 'OverflowError') and R.d4_shape(ast):
+        if ob[1] in ('ZeroDivisionError', 'OverflowError', 'TypeError') and R.d4_shape(ast):
+            # the sign-merged evaluation (defect D4) runs into a division by zero / overflow / complex number that
+            # the documented order does not meet: the twin cannot predict an outcome, the case says nothing
             try:
                 R.evaluate(ast, d4=True)
             except R.Undefined:
@@ -236,6 +247,8 @@ def run_case(case, ctx):
     import random
     if case['t'] == 'ill':
         return run_ill(case, ctx)
+    if case['t'] == 'doc':
+        return run_wf(R.parse(case['text']), None, ctx, ['docs-example'], case['text'])
     return run_wf(case['ast'], case.get('bseed'), ctx, [], None)
 
 
@@ -316,14 +329,18 @@ def run_ill(case, ctx):
     elif ob[0] == 'v':
         known = None
         if holed is not None:
-            try:
-                twin = R.evaluate(holed, holes=True)
-                if agrees(ob, twin):
-                    known = KEY_D1
-                detail['short_circuit_twin'] = twin
-            except R.TwinFail:
-                pass
-            except R.Undefined:
+            twins, undefined = [], False
+            for d4 in ([False, True] if R.d4_shape(holed) else [False]):   # the rest of the text may be subject to D4 too
+                try:
+                    twins.append(R.evaluate(holed, holes=True, d4=d4))
+                except R.TwinFail:
+                    pass
+                except R.Undefined:
+                    undefined = True
+            detail['short_circuit_twin'] = twins
+            if any(agrees(ob, t) for t in twins):
+                known = KEY_D1
+            elif undefined:
                 # the twin meets a non-finite / complex / arithmetic-error intermediate, so it cannot predict
                 # the value; when the hole is the right-most operand of a &&/|| chain (the only place where
                 # a short-circuit can hide it) the case says nothing, otherwise it is a new violation
